@@ -17,6 +17,11 @@ Op lines (see lean/Driver/WbD.lean):
                                  before | encB= the bystander afterwards | post= the key-independent tables generated
                                  afterwards, in full | kt= T-box digests of network 2 | alias= NONE or ALIASED:<where>
                                  (a mutable table object shared by two networks / two calls) | enc2= network 2
+  wb.hist <xkey> <xblocks> <step>…   the network against a DES object WITH A HISTORY: ONE D = DES(key) and ONE W = WhiteDES(tables(key))
+                                 go through the steps e:<b> D.enc(b) | d:<b> D.dec(b) | w:<b> W.enc(b) | v:<b> W.dec(b) (operands of
+                                 any length: a wrong-size operand is refused; W.dec always is), then every 8-byte block B of <xblocks>
+                                 is evaluated on the two USED objects: W.enc(B):D.enc(B):D.dec(D.enc(B)).  Result: step results `,`-joined
+                                 | triples `,`-joined.  The model answers from (key, operand) alone
 
 run_impl executes the line on the real crysp.wb (tables cached per key inside the worker).  check_impl is the
 property's own predicate, written without crysp.wb and without the Lean model:
@@ -34,7 +39,10 @@ property's own predicate, written without crysp.wb and without the Lean model:
     tables are the ones generated before, still satisfy the layout equations, network 2 has the reference T-boxes of key2
     and computes reference DES under key2, the untouched bystander network still computes DES under key1, and no mutable
     table object is shared (the unmodified generators build every list afresh: tM1/tM2/tM3 of two networks are distinct
-    objects, so identity itself is flagged).
+    objects, so identity itself is flagged);
+  * the equality white-box = DES holds for USED objects (wb.hist): after any history of accepted and refused enc / dec calls on the
+    DES object, and of accepted and refused calls on the network, W.enc(B) = D.enc(B) = reference DES(key, B) and D.dec gives B back;
+    every step of the history itself returns the reference value (or is refused for an operand that is not 8 bytes).
 """
 import os, re, random, signal
 from props.common import *
@@ -45,7 +53,8 @@ LEAN_PROOFS = ['Proofs.C18']
 GEN_ITEMS = ['Wb', 'Des']
 RULE = ('op lines; one wb.encs line = one generated table network (one key) evaluated on a batch of blocks (64 single-bit blocks, '
         'zero, all-ones / seeded random blocks); one wb.seq line = three generated networks (key1, key1 bystander, key2) in one '
-        'process with an in-place modification of the first in between; distinct lines; non-trivial = the implementation returned a value')
+        'process with an in-place modification of the first in between; one wb.hist line = one network and one DES object of the same key, '
+        'each through a history of accepted and refused enc / dec calls (several orders), then compared on a batch of blocks; distinct lines; non-trivial = the implementation returned a value')
 TRUSTED = ['Model.Py / Model.Bits / Model.Poly model CPython ints, lists and the Bits/Poly plumbing (validated by the C07/C08/C16 streams)',
            'CPython iterates a set of small non-negative ints in ascending order (getrbits_T_in: list(sr)); modelled as an ascending list, '
            'tied by rbits_eq_gen to what the running interpreter returns',
@@ -59,7 +68,8 @@ LEVEL_TEXT = ('Lean 4 theorems: wb_enc_eq_des — for every 8-byte key and every
               'tables of the model are exactly what the real generators return (kernel evaluation against values re-extracted on every run) '
               'and satisfy the layout identities M1 = layout o IP, M3 o layout = IPinv o swap, M2 rows gather R_j or L_j xor S_P(j); '
               'gen_seq_key_only / gen_seq_second_is_des — generating for K1, modifying that network arbitrarily, then generating for K2 '
-              'yields exactly the network of K2, with the extracted key-independent tables, computing DES under K2; '
+              'yields exactly the network of K2, with the extracted key-independent tables, computing DES under K2; wb_enc_eq_des_objects — the '
+              'objects DES(K) and the generated network exist for every 8-byte key and agree on every operand; '
               'correspondence stream per generated network with an independent reference DES, reference T-boxes and symbolic layout '
               'equations, including multi-network sequences in one process with in-place modification of an earlier network.')
 LEVEL_NOTE = ('Trusted: Lean kernel, translator and correspondence harness (the tie model <-> code), Model.Bits/Model.Poly/Model.Py as models of '
@@ -67,7 +77,9 @@ LEVEL_NOTE = ('Trusted: Lean kernel, translator and correspondence harness (the 
               'In the Lean model a table is a value and generation is a pure function of the key (gen_seq_key_only is immediate there): '
               'object identity / aliasing of the Python lists (a cache returning the same mutable list to every caller, tables shared by two '
               'live WhiteDES instances, state kept between two generations) is NOT covered by any theorem; it is decided by the '
-              'correspondence stream only (wb.seq / wb.seqg lines: identity of the objects and modify-then-generate on the real code).')
+              'correspondence stream only (wb.seq / wb.seqg lines: identity of the objects and modify-then-generate on the real code). Likewise the '
+              'model DES object and network are values without state: that a USED DES(K) / WhiteDES object (after accepted and refused enc / dec '
+              'calls) still computes the same function is decided by the wb.hist lines of the stream.')
 TECHNIQUE = 'Lean 4 proof (kernel evaluation of closed table generators, structural proofs for all keys) + correspondence check'
 LINE_TIMEOUT = 120
 
@@ -332,6 +344,66 @@ def _isolated(f):
     return data if data else 'ERR'
 
 
+# ---------------------------------------------------------------------------------------------
+# the network against a DES object with a history (wb.hist)
+def parse_hist(a):
+    k, blocks = unhx(a[0]), unhx(a[1])
+    steps = []
+    for st in a[2:]:
+        if st[:2] not in ('e:', 'd:', 'w:', 'v:'): raise RuntimeError('step ' + st)
+        steps.append((st[0], unhx(st[2:])))
+    return k, blocks, steps
+
+
+def _hist(k, blocks, steps):
+    """ONE DES object and ONE WhiteDES object (a new object over the worker's cached tables of the key) through the steps,
+    then both on every block"""
+    from crysp import wb as W
+    from crysp.des import DES
+    w0, _ = _net(k)
+    Wn = W.WhiteDES(w0.KT, w0.tM1, w0.tM2, w0.tM3)
+    D = DES(k)
+    call = {'e': D.enc, 'd': D.dec, 'w': Wn.enc, 'v': Wn.dec}
+    outs = [guarded(lambda st=st: hx(call[st[0]](st[1]))) for st in steps]
+    trip = []
+    for B in chunks8(blocks):
+        wb = guarded(lambda: hx(Wn.enc(B)))
+        de = guarded(lambda: hx(D.enc(B)))
+        dd = 'ERR' if de == 'ERR' else guarded(lambda: hx(D.dec(unhx(de))))
+        trip.append('%s:%s:%s' % (wb, de, dd))
+    return ','.join(outs) + '|' + ','.join(trip)
+
+
+def check_hist(a, res, bad):
+    k, blocks, steps = parse_hist(a)
+    if len(k) != 8: return None
+    if res == 'ERR' or res.count('|') != 1: return bad('the objects could not be built / malformed result (%s)' % res[:40])
+    h, c = res.split('|')
+    outs = h.split(',') if steps else []
+    ms = chunks8(blocks)
+    trip = c.split(',') if ms else []
+    if len(outs) != len(steps) or len(trip) != len(ms): return bad('malformed result')
+    hist = ' '.join(a[2:]) or 'no call'
+    for i, ((kind, b), got) in enumerate(zip(steps, outs)):
+        if kind == 'v' or len(b) != 8: exp = 'ERR'
+        else: exp = hx(R.des(k, b, kind == 'd'))
+        if got != exp:
+            return bad('call %d of the history (%s): expected %s (reference DES / refused operand), got %s' % (i + 1, a[2 + i], exp, got))
+    for B, t in zip(ms, trip):
+        f = t.split(':')
+        if len(f) != 3: return bad('malformed result')
+        if len(B) != 8:
+            if f != ['ERR'] * 3: return bad('block of %d bytes accepted after the history [%s]' % (len(B), hist))
+            continue
+        exp = hx(R.des(k, B))
+        if f[0] != exp: return bad('block %s: the white-box object with the history [%s] gives %s, reference DES %s' % (hx(B), hist, f[0], exp))
+        if f[1] != exp:
+            return bad('block %s: WhiteDES.enc = %s but the DES object of the same key with the history [%s] gives enc = %s (reference DES %s)'
+                       % (hx(B), f[0], hist, f[1], exp))
+        if f[2] != hx(B): return bad('block %s: dec(enc(B)) = %s on the DES object with the history [%s]' % (hx(B), f[2], hist))
+    return None
+
+
 def run_impl(line):
     from crysp import wb as W
     from crysp.bits import Bits
@@ -371,6 +443,9 @@ def run_impl(line):
                 blk[tt:nt] = w.KT[0][n][blk[tt:nt]]
                 tt = nt
             return fb(w._WhiteDES__FX(blk))
+        if op == 'wb.hist':
+            k, blocks, steps = parse_hist(a)
+            return _hist(k, blocks, steps)
         raise RuntimeError('unknown op ' + op)
     if op in ('wb.seq', 'wb.seqg'):
         k1, k2, blocks = unhx(a[0]), unhx(a[1]), unhx(a[2])
@@ -561,6 +636,8 @@ def check_impl(line, res):
         return check_encs(k, ms, res.split(',') if ms else [], bad)
     if op in ('wb.seq', 'wb.seqg'):
         return check_seq(line, res, bad)
+    if op == 'wb.hist':
+        return check_hist(a, res, bad)
     if op == 'wb.tables':
         if res == 'ERR': return bad('table generation raised')
         rounds = res.split(';')
@@ -675,6 +752,50 @@ def seq_cases(rng, q):
     yield 'wb.seq %s %s %s' % (hx(rb(rng, 8)), hx(rb(rng, 8)), hx(rb(rng, 8 + 5))), 'seq.badblocksize'
 
 
+def hist_patterns(rng):
+    """(tag, steps): histories of the DES object (e/d) and of the network object (w/v): accepted calls, calls refused for a
+    wrong-size operand (an exception must not leave anything behind either), in several orders; an odd and an even number of
+    refused calls (a toggle left behind by every refused call cancels itself in pairs)"""
+    B = lambda: rb(rng, 8)
+    short = lambda: rb(rng, rng.choice([0, 1, 3, 7]))
+    long_ = lambda: rb(rng, rng.choice([9, 16, 24]))
+    yield 'fresh', []
+    yield 'des-enc', [('e', B())]
+    yield 'des-dec', [('d', B())]
+    yield 'des-dec-refused', [('d', short())]
+    yield 'des-enc-refused', [('e', short())]
+    yield 'des-dec-refused-long', [('d', long_())]
+    yield 'des-dec-refused-twice', [('d', short()), ('d', long_())]
+    yield 'des-dec-refused-thrice', [('d', short()), ('d', short()), ('d', long_())]
+    yield 'des-enc-dec', [('e', B()), ('d', B())]
+    yield 'des-dec-enc', [('d', B()), ('e', B())]
+    yield 'des-enc-refuseddec-enc', [('e', B()), ('d', short()), ('e', B())]
+    yield 'des-dec-refusedenc-dec', [('d', B()), ('e', long_()), ('d', B())]
+    yield 'des-refusedenc-refuseddec-dec', [('e', short()), ('d', short()), ('d', B())]
+    yield 'des-refuseddec-dec-enc', [('d', long_()), ('d', B()), ('e', B())]
+    yield 'wb-enc', [('w', B()), ('w', B())]
+    yield 'wb-refused', [('w', short())]
+    yield 'wb-enc-refused-enc', [('w', B()), ('w', long_()), ('v', B()), ('w', B())]
+    yield 'wb-dec-refused', [('v', B()), ('v', short())]
+    yield 'both', [('w', B()), ('e', B()), ('v', B()), ('d', short()), ('w', short()), ('d', B())]
+
+
+def hist_cases(rng, q):
+    kt = bytes.fromhex('133457799bbcdff1')
+    keys = [(kt, 'hist.testkey')] + [(rb(rng, 8), 'hist.randomkey') for _ in range(1 if q else 6)] + ([] if q else [(R.WEAK[0], 'hist.weakkey')])
+    for k, tag in keys:
+        blocks = b'Now is t' + bytes(8) + rb(rng, 8 * (2 if q else 6))
+        for name, steps in hist_patterns(rng):
+            yield 'wb.hist %s %s %s' % (hx(k), hx(blocks), ' '.join('%s:%s' % (a, hx(b)) for a, b in steps)), tag + '.' + name
+        for _ in range(6 if q else 40):
+            steps = []
+            for _ in range(rng.randrange(1, 8)):
+                kind = rng.choice('eeddddwv')
+                steps.append((kind, rb(rng, rng.choice([8, 8, 8, 0, 5, 7, 9, 16]))))
+            yield 'wb.hist %s %s %s' % (hx(k), hx(rb(rng, 16)), ' '.join('%s:%s' % (a, hx(b)) for a, b in steps)), tag + '.random'
+    yield 'wb.hist %s %s d:x0102' % (hx(rb(rng, 8)), hx(rb(rng, 8 + 3))), 'hist.badblocksize'
+
+
 def cases(tier, rng):
     if tier == 'search':
         while True:
@@ -685,6 +806,9 @@ def cases(tier, rng):
             yield 'wb.tables %s' % hx(k), 'search'
             yield 'wb.round %s %d %s' % (hx(k), rng.randrange(16), state_of(rng.getrandbits(32), rng.getrandbits(32))), 'search'
             yield 'wb.static %s' % hx(k), 'search'
+            for name, steps in hist_patterns(rng):
+                if rng.randrange(4) == 0:
+                    yield 'wb.hist %s %s %s' % (hx(k), hx(rb(rng, 16)), ' '.join('%s:%s' % (a, hx(b)) for a, b in steps)), 'search'
         return
     q = tier == 'quick'
     yield 'wb.static', 'static'
@@ -696,6 +820,7 @@ def cases(tier, rng):
     # (a copy of the rng: the rest of the stream does not depend on how many values these lines draw)
     rng2 = random.Random(); rng2.setstate(rng.getstate())
     yield from seq_cases(rng2, q)
+    yield from hist_cases(rng2, q)
     # block sizes the cipher does not define
     k0 = rb(rng, 8)
     for n in (0, 1, 7, 9, 16, 24): yield 'wb.enc %s %s' % (hx(k0), hx(rb(rng, n))), 'badblocksize'
@@ -741,6 +866,16 @@ def shrink(line):
             yield ' '.join(t[:3] + [hx(b[:8 * (n // 2)])])
             yield ' '.join(t[:3] + [hx(b[8 * (n // 2):])])
         if t[0] == 'wb.seqg': yield ' '.join(['wb.seq'] + t[1:])
+    if t[0] == 'wb.hist':
+        steps = t[3:]
+        for i in range(len(steps)): yield ' '.join(t[:3] + steps[:i] + steps[i + 1:])
+        b = unhx(t[2]); n = (len(b) + 7) // 8
+        if n > 1:
+            yield ' '.join(t[:2] + [hx(b[:8 * (n // 2)])] + steps)
+            yield ' '.join(t[:2] + [hx(b[8 * (n // 2):])] + steps)
+        for i, st in enumerate(steps):
+            if len(st) > 4 and len(st) != 19: yield ' '.join(t[:3] + steps[:i] + [st[:3]] + steps[i + 1:])
+        return
     if t[0] == 'wb.encs':
         b = unhx(t[2])
         n = len(b) // 8
